@@ -46,7 +46,7 @@ def run(prog, rep, tier, cfg):
                 X.arg_has('K10', 'withdraw:quota-at-current-epoch', c, 1, ['C:Runtime::curr_epoch'], 'quota availability is evaluated at the current epoch')
                 X.arg_has('K10', 'withdraw:quota-of-beneficiary-term', c, 0, ['F:MinerInfo.beneficiary_term'], 'quota of the active beneficiary term', narrow=False)
         X.accumulates('K10', 'withdraw:used-quota-accumulated', C, ['C:core::cmp::min'], 'used_quota += amount withdrawn')
-        uq = [c for c in C.calls if (c.defp or '').endswith('AddAssign::add_assign') and has_atom(prog.slicer.operand(C, c.args[0]), 'F:BeneficiaryTerm.used_quota')]
+        uq = [c for c in C.calls if (c.defp or '').endswith('AddAssign::add_assign') and X.updates_field(c, 'BeneficiaryTerm', 'used_quota')]
         rep.need('K10', 'withdraw:used-quota-site', len(uq) == 1, 'one `used_quota += amount` expected, found %d' % len(uq), X.loc(C))
         X.followed_by('K7', 'withdraw:quota-saved', C, [c.bb for c in uq], [c.bb for c in C.calls if callee_is('State::save_info')(c)], 'the used quota is saved')
         # when the beneficiary is not the owner and the amount is positive the quota update must happen
@@ -81,7 +81,7 @@ def run(prog, rep, tier, cfg):
     # ---- locked_funds ledger follows the vesting table
     for fn_, src in (('state::State::unlock_vested_funds', 'C:VestingFunds::unlock_vested_funds'), ('state::State::unlock_vested_and_unvested_funds', 'C:VestingFunds::unlock_vested_and_unvested_funds')):
         F = X.fn(fn_, CR)
-        subs = [c for c in F.calls if (c.defp or '').endswith('SubAssign::sub_assign') and has_atom(prog.slicer.operand(F, c.args[0]), 'F:State.locked_funds')]
+        subs = [c for c in F.calls if (c.defp or '').endswith('SubAssign::sub_assign') and X.updates_field(c, 'State', 'locked_funds')]
         rep.need('K10', '%s:ledger-decrease' % fn_.split('::')[-1], len(subs) == 1 and has_atom(prog.narrow.operand(F, subs[0].args[1]), src),
                  'locked_funds decreases by exactly what the vesting table released', X.loc(F))
         neg = X.find_conds(F, m_pred('is_negative', ['F:State.locked_funds'], False))
@@ -91,7 +91,7 @@ def run(prog, rep, tier, cfg):
             okn = not F.ok_returns_from([t for (t, _l) in F.succ[subs[0].bb]], removed=[X.edge(cc, arm)])
         rep.need('K6b', '%s:non-negative' % fn_.split('::')[-1], okn, 'after the decrease, a negative locked_funds must be an error', X.loc(F))
     AL = X.fn('state::State::add_locked_funds', CR)
-    adds = [c for c in AL.calls if (c.defp or '').endswith('AddAssign::add_assign') and has_atom(prog.slicer.operand(AL, c.args[0]), 'F:State.locked_funds')]
+    adds = [c for c in AL.calls if (c.defp or '').endswith('AddAssign::add_assign') and X.updates_field(c, 'State', 'locked_funds')]
     rep.need('K10', 'add_locked_funds:ledger-increase', len(adds) == 1 and has_atom(prog.narrow.operand(AL, adds[0].args[1]), 'P:4'), 'locked_funds increases by the vesting sum', X.loc(AL))
     X.guard('K6b', 'add_locked_funds:non-negative-sum', AL, [c.bb for c in AL.calls if callee_is('vesting_state::VestingFunds::add_locked_funds')(c)], m_pred('is_negative', ['P:4'], False), 'negative vesting sum => Err')
     # ---- vesting table: only strictly past epochs are vested
